@@ -129,12 +129,13 @@ class BaseRollPass(DiskElementUnit, DeformationUnit, ABC):
         return list(self._subunits)
 
     def init_solve(self, in_profile: BaseProfile):
-        super().init_solve(in_profile)
-        # forget what was remembered during an earlier solve: gap, groove or roll may have been edited since then
+        # forget what was remembered during an earlier solve - before the pre-processors read it (entry rotation): the pass, its roll or
+        # the units in front of it may have been edited since then
         self.__cache__.clear()
         self.roll.__cache__.clear()
         self._contour_lines = None
         self.roll._contour_line = None
+        super().init_solve(in_profile)
         self.out_profile.cross_section = self.usable_cross_section
 
     def reevaluate_cache(self):
